@@ -276,7 +276,11 @@ impl<'a> Default for DirtyCallbacks<'a> {
     /// Default hooks read from and write to the state.
     fn default() -> DirtyCallbacks<'a> {
         DirtyCallbacks {
-            is_checked: Box::new(File::is_checked),
+            // A file that was built (or found changed) in this run has been
+            // dealt with in this run, even if one of its dependencies is
+            // still dirty (its script put up with a failing redo-ifchange):
+            // never run its script a second time in the same run.
+            is_checked: Box::new(|f, env| f.is_checked(env) || f.is_changed(env)),
             set_checked: Box::new(File::set_checked_save),
             log_override: Box::new(state::warn_override),
         }
